@@ -8,9 +8,14 @@ for sid in $ids; do
   P=${sid%%-*}
   git -C $R diff --quiet || { echo "/repo is not clean"; exit 3; }
   git -C $R apply /verif/seeded/$sid/patch.diff || { echo "$sid: does not apply"; continue; }
-  out=$(env VERIF_SCRATCH_EVIDENCE=1 VERIF_REPO=$R timeout 900 ./check $P quick 2>&1); rc=$?
+  res=""
+  # seeded/<id>/extra_checks names further properties whose checks are run against this change
+  for Q in $P $(cat seeded/$sid/extra_checks 2>/dev/null); do
+    out=$(env VERIF_SCRATCH_EVIDENCE=1 VERIF_REPO=$R timeout 900 ./check $Q quick 2>&1); rc=$?
+    lab=$(echo "$out" | grep -o "entry=[A-Za-z0-9]* label=[a-zA-Z0-9_-]*" | head -2 | tr '\n' ';')
+    res="$res $Q:quick:rc=$rc:$lab"
+    echo "$sid $Q rc=$rc $lab"
+  done
   git -C $R checkout -- .
-  lab=$(echo "$out" | grep -o "entry=[A-Za-z0-9]* label=[a-zA-Z0-9_-]*" | head -2 | tr '\n' ';')
-  echo "$P:quick:rc=$rc:$lab" > seeded/$sid/result.txt
-  echo "$sid rc=$rc $lab"
+  echo "$res" > seeded/$sid/result.txt
 done
